@@ -270,7 +270,8 @@ Record Inv (s : state) : Prop := mkInv {
   inv_rest : forall v r, lookup v (st_vals s) = Some r -> ~ In v (st_rm s) -> ~ In v (st_re s) ->
              (v_status r = SActive <-> In (v_cons r) (st_cset s));
   inv_cset : forall k, In k (st_cset s) -> exists v r, lookup v (st_vals s) = Some r /\ v_cons r = k;
-  inv_halt : st_halt s = false
+  inv_halt : st_halt s = false;
+  inv_vals_sorted : sorted (map fst (st_vals s))
 }.
 
 (* only these six components matter *)
@@ -308,6 +309,7 @@ Proof.
     destruct (Z.eq_dec v0 v) as [->|Hn].
     + rewrite Hv in A; inv A. exists v, r'. rewrite lookup_upd_same. auto.
     + exists v0, r0. rewrite lookup_upd_other; auto.
+  - rewrite keys_upd. now apply sorted_sadd.
 Qed.
 
 (* Pause / Inactivate / Jail of an active validator whose key the consensus engine holds *)
@@ -341,6 +343,7 @@ Proof.
     destruct (Z.eq_dec v0 v) as [->|Hn].
     + rewrite Hv in A; inv A. exists v, r'. rewrite lookup_upd_same. auto.
     + exists v0, r0. rewrite lookup_upd_other; auto.
+  - rewrite keys_upd. now apply sorted_sadd.
 Qed.
 
 (* Unpause / Activate of a non-active validator *)
@@ -371,6 +374,7 @@ Proof.
     destruct (Z.eq_dec v0 v) as [->|Hn].
     + rewrite Hv in A; inv A. exists v, (with_status r0 SActive). rewrite lookup_upd_same. auto.
     + exists v0, r0. rewrite lookup_upd_other; auto.
+  - rewrite keys_upd. now apply sorted_sadd.
 Qed.
 
 (* ---------------------------------------------------------------- claim *)
@@ -542,6 +546,12 @@ Proof.
   - intros Hin. exists v. split; auto. unfold key_of. now rewrite Hv.
 Qed.
 
+Lemma join_sorted : forall l s, sorted (map fst (st_vals s)) -> sorted (map fst (st_vals (fold_left join_pending l s))).
+Proof.
+  induction l as [|[v k] l IH]; intros s H; [assumption|]. cbn [fold_left]. apply IH.
+  cbn [join_pending add_validator st_vals]. rewrite keys_upd. now apply sorted_sadd.
+Qed.
+
 Theorem end_block_applicable_and_equal : forall s, Inv s -> some_active (joined s) ->
   exists c', end_block s = (set_cons (set_queues (set_pend (joined s) []) [] []) c' false, ROk, eb_updates s) /\
              apply_updates (st_cset s) (eb_updates s) = Some c' /\
@@ -643,6 +653,101 @@ Proof.
         -- exfalso. eapply (inv_pend_fresh s I); eauto.
         -- eapply (inv_inj s I); eauto.
     + intros k Hk. apply Hin_new in Hk as (v & r & A & B & C). eauto.
+    + apply join_sorted, (inv_vals_sorted s I).
+Qed.
+
+(* ---------------------------------------------------------------- address rotation, genesis export + import *)
+Lemma keys_del : forall A k (l : list (Z * A)), map fst (del k l) = sdel k (map fst l).
+Proof.
+  intros A k l. unfold del, sdel. induction l as [|[k' a] l IH]; cbn; [reflexivity|].
+  destruct (k' =? k); cbn; now rewrite IH.
+Qed.
+
+Definition good_rotate (s : state) (v v' : Z) : Prop :=
+  ~ In v (st_rm s) /\ ~ In v (st_re s) /\ lookup v' (st_vals s) = None /\ lookup v' (st_pend s) = None.
+
+Lemma Inv_rotate : forall cfg s v v', Inv s -> good_rotate s v v' -> Inv (fst (step cfg s (ORotate v v'))).
+Proof.
+  intros cfg s v v' I (Grm & Gre & Gv & Gp). cbn [step].
+  destruct (lookup v (st_vals s)) as [r|] eqn:Hv; [|exact I]. cbn [fst].
+  assert (Hne : v' <> v) by (intro; subst; congruence).
+  assert (L : forall x, lookup x (upd v' r (del v (st_vals s))) =
+                        if x =? v' then Some r else if x =? v then None else lookup x (st_vals s)).
+  { intros x. rewrite lookup_upd, lookup_del. reflexivity. }
+  destruct I. constructor; cbn [st_vals st_pend st_rm st_re st_cset st_halt]; auto.
+  - intros v1 v2 r1 r2. rewrite !L. intros H1 H2 H3.
+    assert (C : forall x rx, (if x =? v' then Some r else if x =? v then None else lookup x (st_vals s)) = Some rx ->
+                 (x = v' /\ rx = r) \/ (x <> v' /\ x <> v /\ lookup x (st_vals s) = Some rx)).
+    { intros x rx H. destruct (x =? v') eqn:E1; zb; [inv_some; auto|]. destruct (x =? v) eqn:E2; zb; [discriminate|auto]. }
+    destruct (C _ _ H1) as [[-> ->]|(A1 & B1 & C1)]; destruct (C _ _ H2) as [[-> ->]|(A2 & B2 & C2)]; auto.
+    + exfalso. apply B2. exact (inv_inj0 v2 v r2 r C2 Hv (eq_sym H3)).
+    + exfalso. apply B1. exact (inv_inj0 v1 v r1 r C1 Hv H3).
+    + exact (inv_inj0 v1 v2 r1 r2 C1 C2 H3).
+  - intros v0 k x rx Hp. rewrite L. destruct (x =? v') eqn:E1; zb; [intros H; inv_some; eauto|].
+    destruct (x =? v); [discriminate|eauto].
+  - intros v0 k Hp. rewrite L. destruct (v0 =? v') eqn:E1; zb; [subst; congruence|].
+    destruct (v0 =? v); [reflexivity|eauto].
+  - intros x Hx. destruct (inv_rm0 x Hx) as (rx & A & B & C & D). exists rx. rewrite L.
+    destruct (x =? v') eqn:E1; zb; [subst; congruence|]. destruct (x =? v) eqn:E2; zb; [subst; contradiction|auto].
+  - intros x Hx. destruct (inv_re0 x Hx) as (rx & A & B). exists rx. rewrite L.
+    destruct (x =? v') eqn:E1; zb; [subst; congruence|]. destruct (x =? v) eqn:E2; zb; [subst; contradiction|auto].
+  - intros x rx. rewrite L. destruct (x =? v') eqn:E1; zb.
+    + intros H _ _. inv_some. apply (inv_rest0 v); auto.
+    + destruct (x =? v); [discriminate|]. intros; apply (inv_rest0 x); auto.
+  - intros k Hk. destruct (inv_cset0 k Hk) as (x & rx & A & B).
+    destruct (Z.eq_dec x v) as [->|Hn].
+    + rewrite Hv in A. inv_some. exists v', rx. rewrite L, Z.eqb_refl. auto.
+    + exists x, rx. rewrite L. destruct (x =? v') eqn:E1; zb; [subst; congruence|].
+      destruct (x =? v) eqn:E2; zb; [contradiction|auto].
+  - rewrite keys_upd, keys_del. now apply sorted_sadd, sorted_sdel.
+Qed.
+
+Definition some_active_now (s : state) : Prop := exists v r, lookup v (st_vals s) = Some r /\ v_status r = SActive.
+
+(* export + import re-establishes the invariant from ANY state in which it held, whatever was queued *)
+Lemma Inv_genesis : forall s, Inv s -> some_active_now s ->
+  Inv (fst (genesis_import s)) /\ snd (genesis_import s) = ROk /\
+  (forall k, In k (st_cset (fst (genesis_import s))) <-> exists v r, lookup v (st_vals s) = Some r /\ v_status r = SActive /\ v_cons r = k).
+Proof.
+  intros s I (a & ra & Ha & Sa).
+  pose proof (inv_vals_sorted s I) as Hvs.
+  set (act := filter (fun e : Z * vrec => is_active (v_status (snd e))) (st_vals s)).
+  assert (Hact : forall v r, In (v, r) act <-> lookup v (st_vals s) = Some r /\ v_status r = SActive).
+  { intros v r. unfold act. rewrite filter_In. cbn. rewrite is_active_true. split.
+    - intros [A B]. split; auto. now apply In_lookup_sorted.
+    - intros [A B]. split; auto. now apply lookup_In. }
+  assert (Eups : genesis_updates s = map (fun e : Z * vrec => (v_cons (snd e), 1)) act) by reflexivity.
+  assert (Hkeys : map fst (genesis_updates s) = map (fun e : Z * vrec => v_cons (snd e)) act) by (rewrite Eups, map_map; reflexivity).
+  assert (Hupds : upds_of (genesis_updates s) = map (fun e : Z * vrec => v_cons (snd e)) act).
+  { rewrite Eups. apply (upds_const1 _ (fun e : Z * vrec => v_cons (snd e))). }
+  assert (Hdels : dels_of (genesis_updates s) = []).
+  { rewrite Eups. apply (dels_const1 _ (fun e : Z * vrec => v_cons (snd e))). }
+  assert (Hnd : NoDup (map fst (genesis_updates s))).
+  { rewrite Hkeys. apply NoDup_map_inj.
+    - unfold act. apply NoDup_filter. apply (NoDup_map_inv fst). now apply sorted_NoDup.
+    - intros [v1 r1] [v2 r2] H1 H2 E. cbn in E. apply Hact in H1 as [A1 _]. apply Hact in H2 as [A2 _].
+      assert (v1 = v2) by (eapply (inv_inj s I); eauto). subst. congruence. }
+  assert (Hin : In (a, ra) act) by (apply Hact; auto).
+  destruct (apply_updates_ok [] (genesis_updates s) Hnd) as (c & Happ & Hmem & Hsort).
+  { intros u Hu. rewrite Eups in Hu. apply in_map_iff in Hu as (e & <- & _). cbn. auto. }
+  { rewrite Hdels. intros k []. }
+  { left. exists (v_cons ra). split; [|intros []]. rewrite Hupds. apply in_map_iff. exists (a, ra). auto. }
+  assert (Hne : genesis_updates s <> []).
+  { rewrite Eups. intro E. apply map_eq_nil in E. rewrite E in Hin. destruct Hin. }
+  assert (Hc : forall k, In k c <-> exists v r, lookup v (st_vals s) = Some r /\ v_status r = SActive /\ v_cons r = k).
+  { intros k. rewrite Hmem, Hupds, Hdels, in_map_iff. split.
+    - intros ([[]|([v r] & E & Hv)] & _). cbn in E. apply Hact in Hv as [A B]. eauto.
+    - intros (v & r & A & B & C). split; [|intros []]. right. exists (v, r). split; auto. apply Hact. auto. }
+  unfold genesis_import. destruct (genesis_updates s) as [|u0 ups0] eqn:Eg; [congruence|]. rewrite <- Eg in *.
+  rewrite Happ. cbn [fst snd]. split; [|split; [reflexivity|exact Hc]].
+  constructor; cbn [set_cons st_vals st_pend st_rm st_re st_cset st_halt map sorted lookup In];
+    try exact Logic.I; try (intros; discriminate); try (intros; contradiction); try apply (inv_halt s I); try exact Hvs.
+  - apply Hsort. exact Logic.I.
+  - apply (inv_inj s I).
+  - intros v r Hv _ _. rewrite Hc. split.
+    + intros Hs. eauto.
+    + intros (v' & r' & A & B & C). assert (v' = v) by (eapply (inv_inj s I); eauto). subst. congruence.
+  - intros k Hk. apply Hc in Hk as (v & r & A & _ & C). eauto.
 Qed.
 
 (* ---------------------------------------------------------------- the alphabet on which C05 holds *)
@@ -673,6 +778,8 @@ Definition good (cfg : config) (s : state) (o : op) : Prop :=
   | OReset => False
   | OUpPause vs => goods_list (fun a v => Some (sk_pause a v)) good_uppause s vs
   | OEndBlock => some_active (joined s)
+  | ORotate v v' => good_rotate s v v'
+  | OGenesis => some_active_now s
   end.
 Fixpoint goods (cfg : config) (s : state) (ops : list op) : Prop :=
   match ops with [] => True | o :: r => good cfg s o /\ goods cfg (fst (step cfg s o)) r end.
@@ -803,6 +910,8 @@ Proof.
     cbn [fst]. apply Inv_ext with (s := s); [exact I|reflexivity..].
   - (* end block *)
     destruct (end_block_applicable_and_equal s I G) as (c' & E & _ & _ & I'). rewrite E. exact I'.
+  - (* address rotation *) now apply (Inv_rotate cfg).
+  - (* genesis export + import *) cbn [step]. now apply Inv_genesis.
 Qed.
 
 Theorem run_preserves_Inv : forall cfg ops s, Inv s -> goods cfg s ops -> Inv (run cfg s ops).
@@ -871,11 +980,12 @@ Definition invb (s : state) : bool :=
   && forallb (fun e : Z * vrec => smem (fst e) (st_rm s) || smem (fst e) (st_re s) ||
                                   Bool.eqb (is_active (v_status (snd e))) (smem (v_cons (snd e)) (st_cset s))) (st_vals s)
   && forallb (fun k => existsb (fun e : Z * vrec => match lookup (fst e) (st_vals s) with Some r => v_cons r =? k | None => false end) (st_vals s)) (st_cset s)
-  && negb (st_halt s).
+  && negb (st_halt s)
+  && sortedb (map fst (st_vals s)).
 
 Lemma invb_sound : forall s, invb s = true -> Inv s.
 Proof.
-  intros s H. unfold invb in H.
+  intros s H. unfold invb in H. apply andb_true_iff in H as [H Hvs].
   apply andb_true_iff in H as [H Hhalt]. apply andb_true_iff in H as [H Hcsq]. apply andb_true_iff in H as [H Hrest].
   apply andb_true_iff in H as [H Hreq]. apply andb_true_iff in H as [H Hrmq]. apply andb_true_iff in H as [H Hpn].
   apply andb_true_iff in H as [H Hnd]. apply andb_true_iff in H as [H Hs4]. apply andb_true_iff in H as [H Hs3].
@@ -931,6 +1041,10 @@ Definition goodb (cfg : config) (s : state) (o : op) : bool :=
   | OUpPause vs => goods_listb (fun a v => Some (sk_pause a v))
                      (fun a v => match lookup v (st_vals a) with Some r => okb a r SInactive | None => true end) s vs
   | OEndBlock => some_activeb (joined s)
+  | ORotate v v' => negb (smem v (st_rm s)) && negb (smem v (st_re s))
+                    && (match lookup v' (st_vals s) with None => true | Some _ => false end)
+                    && (match lookup v' (st_pend s) with None => true | Some _ => false end)
+  | OGenesis => some_activeb s
   end.
 Fixpoint goodsb (cfg : config) (s : state) (ops : list op) : bool :=
   match ops with [] => true | o :: r => goodb cfg s o && goodsb cfg (fst (step cfg s o)) r end.
@@ -967,6 +1081,12 @@ Proof.
   - eapply goods_listb_sound; [|exact H]. intros a v Hx r E. cbn beta in Hx. rewrite E in Hx. now apply okb_sound.
   - unfold some_activeb in H. apply existsb_exists in H as ([v r] & A & B). cbn in B.
     destruct (lookup v (st_vals (joined s))) as [r'|] eqn:E; [|discriminate]. exists v, r'. split; auto. now apply is_active_true.
+  - apply andb_true_iff in H as [H H4]. apply andb_true_iff in H as [H H3]. apply andb_true_iff in H as [H1 H2].
+    apply negb_true_iff in H1. apply smem_false_In in H1. apply negb_true_iff in H2. apply smem_false_In in H2.
+    unfold good_rotate.
+    destruct (lookup v' (st_vals s)); [discriminate|]. destruct (lookup v' (st_pend s)); [discriminate|]. repeat split; auto.
+  - unfold some_activeb in H. apply existsb_exists in H as ([v r] & A & B). cbn in B.
+    destruct (lookup v (st_vals s)) as [r'|] eqn:E; [|discriminate]. exists v, r'. split; auto. now apply is_active_true.
 Qed.
 Lemma goodsb_sound : forall cfg ops s, goodsb cfg s ops = true -> goods cfg s ops.
 Proof.
@@ -1426,7 +1546,8 @@ Definition edge_ok (o : op) (v : Z) (a b : status) : Prop :=
   | OUnjail t => v = t /\ a = SJailed /\ b = SInactive
   | OReset => b = SActive
   | OUpPause vs => In v vs /\ a = SActive /\ b = SPaused
-  | OClaim _ _ _ | ONewBlock _ | OEndBlock => False
+  | OClaim _ _ _ | ONewBlock _ | OEndBlock | OGenesis => False
+  | ORotate _ t' => v = t'     (* only when the target address already held a validator record, which the real message excludes *)
   end.
 
 (* the full statement ... *)
@@ -1455,6 +1576,15 @@ Proof.
     + right. eauto.
   - rewrite claim_newblock_no_edge in Hb by (right; eexists; reflexivity). congruence.
   - rewrite (end_block_edge cfg s v a I Ha) in Hb. congruence.
+  - (* rotation: every other record keeps its status; the rotated one changes address, not status *)
+    left. cbn [edge_ok]. cbn [step] in Hb. destruct (lookup v0 (st_vals s)) as [r|] eqn:E; [|cbn in Hb; congruence].
+    cbn [fst] in Hb. unfold status_at in Hb. cbn [st_vals] in Hb. rewrite lookup_upd in Hb.
+    destruct (v =? v') eqn:Ev; zb; [assumption|]. rewrite lookup_del in Hb.
+    destruct (v =? v0); [discriminate|]. unfold status_at in Ha. congruence.
+  - (* genesis import keeps every record *)
+    exfalso. assert (E : st_vals (fst (genesis_import s)) = st_vals s).
+    { unfold genesis_import. destruct (genesis_updates s); [reflexivity|]. destruct (apply_updates _ _); reflexivity. }
+    cbn [step] in Hb. unfold status_at in Ha, Hb. rewrite E in Hb. congruence.
 Qed.
 
 Theorem only_allowed_edges_refuted : ~ C15_only_allowed_edges_statement.
@@ -1571,6 +1701,11 @@ Proof.
       apply (nonneg_ext (add_validator a v (mkV SActive 0 0 k))); [reflexivity|]. apply nonneg_add; auto; cbn; lia. }
     unfold end_block. destruct (end_block_updates s); [|cbn; eapply nonneg_ext; [reflexivity|exact N]].
     destruct (apply_updates _ _); cbn [fst]; (eapply nonneg_ext; [reflexivity|]); apply F, N.
+  - destruct (lookup v (st_vals s)) as [r|] eqn:E; [|assumption]. cbn [fst]. intros x rx. cbn [st_vals].
+    rewrite lookup_upd. destruct (x =? v'); [intros H; inv H; apply (N v rx E)|]. rewrite lookup_del.
+    destruct (x =? v); [discriminate|apply N].
+  - eapply nonneg_ext; [|exact N]. unfold genesis_import.
+    destruct (genesis_updates s); [reflexivity|]. destruct (apply_updates _ _); reflexivity.
 Qed.
 Theorem rank_streak_nonneg : forall cfg ops s, cfg_ok cfg -> nonneg s -> nonneg (run cfg s ops).
 Proof.
@@ -1582,4 +1717,115 @@ Proof.
   split.
   - intros v r. cbn. destruct (v =? 0); intros H; inv H. cbn. lia.
   - unfold cfg_ok, cfg0, PREC. cbn. lia.
+Qed.
+
+(* ================================================================ address rotation and genesis import: statements *)
+(* inside the alphabet: rotation of a validator that sits in no queue, export + import with somebody active *)
+Definition h_rotate_genesis : list op :=
+  h_setup ++
+  [ONewBlock 5; OVotes [(0, true); (1, true); (2, true)]; ORotate 1 5; OPause 5; OEndBlock;
+   ONewBlock 5; OVotes [(0, true); (2, true)]; OEvidence [(2, 12, 1012)]; OEndBlock;
+   OGenesis;
+   ONewBlock 5; OVotes [(0, true)]; OUnpause 5; OClaim 1 7 true; OEndBlock].
+Lemma h_rotate_genesis_good : goods cfg0 s_gen h_rotate_genesis.
+Proof. apply goodsb_sound. vm_compute. reflexivity. Qed.
+Lemma h_rotate_genesis_result :
+  let s := run cfg0 s_gen h_rotate_genesis in
+  Inv s /\ st_cset s = [0; 1; 7] /\ st_halt s = false /\
+  map (fun e => (fst e, v_status (snd e), v_cons (snd e))) (st_vals s) = [(0, SActive, 0); (1, SActive, 7); (2, SJailed, 2); (5, SActive, 1)].
+Proof.
+  split; [apply run_preserves_Inv; [apply s_gen_Inv|apply h_rotate_genesis_good]|]. vm_compute. auto.
+Qed.
+
+(* rotation of a validator that sits in the removing (or reactivating) queue: the queue keeps the old
+   address, EndBlock cannot find the record, BlockValidatorUpdates panics *)
+Lemma rotate_while_queued_refuted : ~ C05_statement_for [OPause 1; ORotate 1 5; OEndBlock].
+Proof. refute_with cfg0 s_three s_three_Inv. vm_compute in Hh. discriminate. Qed.
+Lemma rotate_while_reactivating_refuted : ~ C05_statement_for [OUnpause 1; ORotate 1 5; OEndBlock].
+Proof. refute_with cfg0 s_paused1 s_paused1_Inv. vm_compute in Hh. discriminate. Qed.
+
+(* export + import re-establishes "consensus set = active validators" from any state of the invariant *)
+Theorem genesis_import_reestablishes : forall s, Inv s -> some_active_now s ->
+  Inv (fst (genesis_import s)) /\ snd (genesis_import s) = ROk /\
+  (forall k, In k (st_cset (fst (genesis_import s))) <-> exists v r, lookup v (st_vals s) = Some r /\ v_status r = SActive /\ v_cons r = k).
+Proof. exact Inv_genesis. Qed.
+(* with nobody active the SDK module manager panics in InitChain *)
+Lemma genesis_import_empty_refuted : ~ C05_statement_for [OEvidence [(0, 10, 1000)]; OGenesis].
+Proof. refute_with cfg0 s_gen s_gen_Inv. vm_compute in Hh. discriminate. Qed.
+
+(* what export + import and rotation LOSE (C15): the jail record is neither exported nor moved, so a
+   validator jailed inside the unjail window can no longer be released by an unjail proposal *)
+Lemma unjail_lost_by_genesis_and_rotation :
+  snd (step cfg0 s_jailed1 (OUnjail 1)) = ROk /\
+  snd (step cfg0 (fst (step cfg0 s_jailed1 OGenesis)) (OUnjail 1)) = RRej /\
+  snd (step cfg0 (fst (step cfg0 s_jailed1 (ORotate 1 5))) (OUnjail 5)) = RRej /\
+  status_at (fst (step cfg0 s_jailed1 (ORotate 1 5))) 5 = Some SJailed.
+Proof. vm_compute. auto. Qed.
+
+(* ================================================================ the spec checker accepts the model (chk_sound) *)
+Lemma dup_keys_nil : forall l, NoDup l -> dup_keys l = [].
+Proof.
+  induction l as [|x l IH]; intros H; [reflexivity|]. inv H. cbn.
+  apply smem_false_In in H2. rewrite H2. auto.
+Qed.
+Lemma filter_nil : forall A (f : A -> bool) l, (forall x, In x l -> f x = false) -> filter f l = [].
+Proof.
+  induction l as [|x l IH]; intros H; [reflexivity|]. cbn. rewrite (H x (or_introl eq_refl)). apply IH. intros; apply H; now right.
+Qed.
+Lemma eb_dels_in_cset : forall s, Inv s -> forall k, In k (dels_of (eb_updates s)) -> In k (st_cset s).
+Proof.
+  intros s I k Hk. rewrite eb_dels in Hk. apply In_queue_keys in Hk as (v & A & B).
+  destruct (inv_rm s I v A) as (r & C & _ & D & _). unfold key_of in B. rewrite C in B. now subst.
+Qed.
+Lemma eb_powers : forall s u, In u (eb_updates s) -> snd u = 0 \/ snd u = 1.
+Proof.
+  intros s u Hu. unfold eb_updates in Hu. rewrite !in_app_iff, !in_map_iff in Hu.
+  destruct Hu as [(x & E & _)|[(x & E & _)|(x & E & _)]]; subst u; cbn; auto.
+Qed.
+
+(* The C05 checker, run on the model's own end block (updates returned, accepted, resulting set with
+   power 1) from ANY state of the invariant with somebody left active, reports nothing -- whatever its
+   bookkeeping [c].  Together with the correspondence (real observation = model) this is what ties
+   "the real trace passes the checker" to the theorems. *)
+Theorem c05_chk_sound_end_block : forall c s, Inv s -> some_active (joined s) ->
+  let s' := fst (fst (end_block s)) in
+  end_block_clauses c s s'
+    (mkObs (snd (fst (end_block s))) [] [] [] None None None None None None
+           (Some (snd (end_block s), negb (st_halt s'), map (fun k => (k, 1)) (st_cset s')))) = [].
+Proof.
+  intros c s I Hact.
+  destruct (end_block_applicable_and_equal s I Hact) as (c' & E & Happ & Hmem & I').
+  rewrite E. cbn [fst snd set_cons st_halt st_cset negb]. unfold end_block_clauses. cbn [o_res o_eb].
+  set (vals := st_vals (set_cons (set_queues (set_pend (joined s) []) [] []) c' false)).
+  assert (Evals : vals = st_vals (joined s)) by reflexivity.
+  assert (Hvs : sorted (map fst vals)) by (rewrite Evals; apply join_sorted, (inv_vals_sorted s I)).
+  rewrite (dup_keys_nil _ (eb_keys_NoDup s I)). cbn [map].
+  assert (Hneg : existsb (fun u : Z * Z => snd u <? 0) (eb_updates s) = false).
+  { apply not_true_is_false. intro H. apply existsb_exists in H as (u & Hu & Hlt). zb. destruct (eb_powers s u Hu); lia. }
+  rewrite Hneg.
+  assert (Habs : filter (fun u : Z * Z => (snd u =? 0) && negb (smem (fst u) (st_cset s))) (eb_updates s) = []).
+  { apply filter_nil. intros u Hu. destruct (snd u =? 0) eqn:E0; [|reflexivity]. zb. cbn.
+    rewrite negb_false_iff. apply (proj2 (smem_In _ _)). apply (eb_dels_in_cset s I). unfold dels_of. apply in_map.
+    apply (proj2 (filter_In _ _ _)). split; auto. now apply Z.eqb_eq. }
+  rewrite Habs. cbn [map app].
+  assert (Esetk : map fst (map (fun k : Z => (k, 1)) c') = c') by (rewrite map_map; apply map_id).
+  rewrite Esetk.
+  assert (Ha : filter (fun e : Z * vrec => negb (smem (v_cons (snd e)) c'))
+                 (filter (fun e : Z * vrec => is_active (v_status (snd e))) vals) = []).
+  { apply filter_nil. intros [v r] Hin. apply filter_In in Hin as [Hin Hs]. cbn in *.
+    rewrite negb_false_iff. apply (proj2 (smem_In _ _)). apply (proj2 (Hmem _)). exists v, r.
+    split; [apply In_lookup_sorted; [exact Hvs|exact Hin]|]. split; [now apply is_active_true|reflexivity]. }
+  rewrite Ha.
+  assert (Hb : filter (fun k : Z => negb (existsb (fun e : Z * vrec => v_cons (snd e) =? k)
+                                       (filter (fun e : Z * vrec => is_active (v_status (snd e))) vals))) c' = []).
+  { apply filter_nil. intros k Hk. rewrite negb_false_iff. apply (proj2 (existsb_exists _ _)).
+    apply Hmem in Hk as (v & r & A & B & C). exists (v, r). split.
+    - apply (proj2 (filter_In _ _ _)). split; [exact (lookup_In _ _ _ _ A)|now apply is_active_true].
+    - cbn. now apply Z.eqb_eq. }
+  rewrite Hb.
+  assert (Hp1 : forallb (fun e : Z * Z => snd e =? 1) (map (fun k : Z => (k, 1)) c') = true).
+  { apply forallb_forall. intros e He. apply in_map_iff in He as (k & <- & _). reflexivity. }
+  assert (Hp2 : forallb (fun u : Z * Z => (snd u =? 0) || (snd u =? 1)) (eb_updates s) = true).
+  { apply forallb_forall. intros u Hu. destruct (eb_powers s u Hu) as [->| ->]; reflexivity. }
+  rewrite Hp1, Hp2. reflexivity.
 Qed.
